@@ -72,6 +72,13 @@ def oracle(v, run):
     return bad
 
 
+# a block whose descriptors carry lists, DIRECTLY followed by a plain block that has end groups: the descriptor handed over takes the second block's
+# terminal weight (no list); a list kept from the first block would index the second block's table and may cap it before any repeat unit
+_B1 = ["{[][<|0 0 0 1 0|]CC[>], [<|0 1 0 0 0|]C(C)C[>]; [<][H][>]}|gauss(150, 20)|", "{[][<|0 0 0 2 0|]CC(C)[>], [<|0 1 0 1 0|]CC[>]; [<]F[>]}|uniform(120, 180)|"]
+_B2 = ["{[<][<]OCC[>]; [>]Cl, [>]Br[]}|gauss(150, 20)|", "{[<][<]CC(O)[>]; [>]N, [>]F[]}|uniform(100, 200)|"]
+HANDOVER_INTO_END_GROUPS = [("handover_into_end_groups", b1 + b2, 1000 + 17 * k) for k in range(6) for b1 in _B1 for b2 in _B2]
+
+
 def check(rep):
     coq = fw.coq_check("C06", ["SrcBond", "SrcCore", "SrcGen"])
     quick = rep.tier == "quick"
@@ -80,7 +87,8 @@ def check(rep):
     # give at least one repeat unit per object and a closed molecule
     wide = [(a + ":gauss_wide", t, s) for a, t, s in gi.cases(rep.seed + 66, 40 if quick else 1500, archetypes=["homopolymer", "block_copolymer", "end_initiated", "random_copolymer"], family="gauss_wide")]
     cases, stats = genrun.collect(rep, 150 if quick else 6000, 14 if quick else 300, forced_kinds=(None, None, "negative", None, "below"), max_leaves=150 if quick else 2000,
-                                  budget_s=130 if quick else 1500, extra_natural=wide)
+                                  budget_s=130 if quick else 1500,
+                                  extra_natural=wide + gi.cases(rep.seed + 67, 16 if quick else 400, archetypes=["list_handover", "lone_zero_weight"]) + HANDOVER_INTO_END_GROUPS * (1 if quick else 12))   # rare triggers: a fixed share
     wp_cache = {}
     accepted = rejected = mols = 0
     acc_by_arch = {}
